@@ -2,10 +2,12 @@ mod absval;
 mod calc;
 mod convert;
 mod cross;
+mod derivops;
 mod drivers;
 mod emit;
 mod field;
 mod float;
+mod forms;
 mod prog;
 mod registry;
 mod render;
@@ -153,6 +155,24 @@ fn main() {
             let per: usize = arg(&args, "--per-prog").and_then(|x| x.parse().ok()).unwrap_or(3);
             let r = float::load(&files).and_then(|t| prog::run_programs(&t, &progs, seed, k, arg(&args, "--types").as_deref(), per));
             match r {
+                Ok(v) => println!("{v}"),
+                Err(e) => {
+                    eprintln!("tool error: {e}");
+                    std::process::exit(2);
+                }
+            }
+        }
+        "derivops" => {
+            match derivops::run(args.get(2).expect("derivops <file>")) {
+                Ok(v) => println!("{v}"),
+                Err(e) => {
+                    eprintln!("tool error: {e}");
+                    std::process::exit(2);
+                }
+            }
+        }
+        "forms" => {
+            match forms::run(args.get(2).expect("forms <file>")) {
                 Ok(v) => println!("{v}"),
                 Err(e) => {
                     eprintln!("tool error: {e}");
